@@ -187,6 +187,22 @@ def r1_units(chk):
             continue
         sites = unit_sites(f.node, scale_mult)
         if not sites:
+            tsites = _table_sites(chk, f, vals, scale_mult)
+            if tsites:
+                chk.analysed(f)
+                for k, st in enumerate(tsites):
+                    n_sites += 1
+                    key = f"{f.key}:unit-scaling" + ("" if k == 0 else f":{k}")
+                    chk.decide(st["exp"] == want_exp, "C08.R1", key, f.where(st["node"]),
+                               f"coordinates are {'multiplied' if st['exp'] > 0 else 'divided'} by a {table} factor taken from `{st['table']}` -> Angstrom",
+                               f"`{short(st['node'], 60)}` {'multiplies' if st['exp'] > 0 else 'divides'} the coordinates by the table value, but the table is {table}")
+                    chk.decide(not st["uncovered"], "C08.R1", f"{f.key}:unit-scaling-guard" + ("" if k == 0 else f":{k}"), f.where(st["node"]),
+                               f"`{st['table']}` has a factor for every unit name that is not Angstrom ({st['n_keys']} names)",
+                               (f"the factor table `{st['table']}` has no entry for {st['uncovered']}: coordinates declared in {st['uncovered'][0]} are taken as Angstrom "
+                                f"({vals[st['uncovered'][0]][0]:g}x off)" + (" - iterating an Enum class skips aliases; `__members__` lists them" if st.get("skips_aliases") else ""))
+                               if st["uncovered"] else "")
+                if contains_yield(f.node):
+                    _converted_coordinates_reach_product(chk, f, tsites)
             continue
         chk.analysed(f)
         for k, st in enumerate(sites):
@@ -207,6 +223,79 @@ def r1_units(chk):
         if contains_yield(f.node):
             _converted_coordinates_reach_product(chk, f, sites)
     chk.require(n_sites >= 1, "no unit-scaling site found anywhere")
+
+
+def _table_sites(chk, f, vals, scale_mult=True):
+    """`x.scale(T.get(u))` / `x.scale(T[u])` with T a module-level {unit name: factor} comprehension over DistanceUnit.
+    Which names the comprehension covers is decided from the enum's members: iterating the class yields every distinct value once
+    (later names of the same value are aliases and are skipped); `__members__` lists every name."""
+    from ..canon import Env
+
+    prog = chk.prog
+    env = Env(f.node)
+    out = []
+    for c in walk_no_nested(f.node):
+        arg = None
+        if isinstance(c, ast.Call) and isinstance(c.func, ast.Attribute) and c.func.attr == "scale" and c.args:
+            arg = c.args[0]
+        if arg is None:
+            continue
+        e = env.expand(arg, at=c)
+        tname = None
+        if isinstance(e, ast.Call) and isinstance(e.func, ast.Attribute) and e.func.attr == "get" and isinstance(e.func.value, ast.Name) and e.args:
+            tname, keyexpr = e.func.value.id, e.args[0]
+        elif isinstance(e, ast.Subscript) and isinstance(e.value, ast.Name):
+            tname, keyexpr = e.value.id, e.slice
+        if tname is None:
+            continue
+        r = prog.resolve_name(f.module, tname)
+        tnode = f.module.top.get(tname)
+        if tnode is None:
+            for m_ in prog.modules.values():
+                if tname in m_.top and isinstance(getattr(m_.top[tname], "value", None), ast.DictComp):
+                    tnode = m_.top[tname]
+        comp = getattr(tnode, "value", None)
+        if not (isinstance(comp, ast.DictComp) and len(comp.generators) == 1):
+            continue
+        g = comp.generators[0]
+        it = norm(g.iter)
+        if it in ("DistanceUnit.__members__.items()",) and isinstance(g.target, ast.Tuple) and len(g.target.elts) == 2:
+            nvar, uvar = norm(g.target.elts[0]), norm(g.target.elts[1])
+            all_names = True
+            key_ok = norm(comp.key) == nvar
+        elif it in ("DistanceUnit", "list(DistanceUnit)", "iter(DistanceUnit)") and isinstance(g.target, ast.Name):
+            uvar = g.target.id
+            all_names = False
+            key_ok = norm(comp.key) == f"{uvar}.name"
+        else:
+            raise AnalysisError(f"{f.key}: the factor table `{tname}` is built over `{it}` - unknown idiom")
+        if not key_ok:
+            raise AnalysisError(f"{f.key}: the factor table `{tname}` is keyed by `{norm(comp.key)}` - unknown idiom")
+        uv = [a for a in ast.walk(comp.value) if isinstance(a, ast.Attribute) and a.attr == "value" and norm(a.value) == uvar]
+        if len(uv) != 1:
+            raise AnalysisError(f"{f.key}: the factor `{norm(comp.value)}` of table `{tname}` is not an expression of the unit's value")
+        exp = +1 if _position(comp.value, uv[0]) == "num" else -1
+        # names covered
+        seen_vals, canonical = [], []
+        for nm, (v, node) in vals.items():
+            if not any(abs(v - w) <= 1e-12 * max(1.0, abs(w)) for w in seen_vals):
+                seen_vals.append(v)
+                canonical.append(nm)
+        names = list(vals) if all_names else canonical
+        dropped_unit = None
+        for cnd in g.ifs:
+            t = cnd
+            if isinstance(t, ast.Compare) and len(t.ops) == 1 and isinstance(t.ops[0], (ast.IsNot, ast.NotEq)) and norm(t.left) == uvar and norm(t.comparators[0]).startswith("DistanceUnit."):
+                dropped_unit = norm(t.comparators[0]).split(".")[1]
+            else:
+                raise AnalysisError(f"{f.key}: the factor table `{tname}` is filtered by `{norm(cnd)}` - unknown idiom")
+        if dropped_unit is not None:
+            dv = vals[dropped_unit][0]
+            names = [n_ for n_ in names if abs(vals[n_][0] - dv) > 1e-12]   # an alias IS the same member
+        uncovered = [n_ for n_ in vals if n_ not in names and abs(vals[n_][0] - 1.0) > 1e-12]
+        out.append(dict(node=c, exp=exp if scale_mult else -exp, target=norm(c.func.value), kind="scale", unit_names=set(), table=tname, uncovered=uncovered, n_keys=len(names),
+                        skips_aliases=not all_names))
+    return out
 
 
 def unit_sites(fn, scale_mult=True):
@@ -665,5 +754,11 @@ def r4_terminal(chk):
         asg = assignments(f.node)
         # the unit must be looked up from the `source_units` parameter
         looked_up = any(isinstance(n, ast.Subscript) and norm(n.value) == "DistanceUnit" and "source_units" in names_in(n.slice) for n in ast.walk(f.node))
+        if not sites:
+            # ... or the factor comes from a table keyed by the unit name
+            from ..canon import Env as _Et
+
+            sites = _table_sites(chk, f, _unit_members(chk)[1])
+            looked_up = bool(sites) and all("source_units" in names_in(_Et(f.node).expand(st_["node"].args[0], at=st_["node"])) for st_ in sites)
         chk.decide(bool(sites) and looked_up, "C08.R4", f"{f.key}:source_units-reaches-scaling", f.where(sites[0]["node"] if sites else None),
                    "DistanceUnit[source_units] feeds the scaling", f"{f.qualname} does not use source_units in a scaling of the coordinates")
